@@ -351,7 +351,8 @@ def vocabulary(names, level):
     for s in SPACES:
         for n in names:
             add("new-cells", "%s.new_cells(%r, formula='lambda: 1')" % (s, n), s)
-            add("new-cells-by-formula-name", "%s.new_cells(formula='def %s(): return 1')" % (s, n), s)
+            if level >= 0:
+                add("new-cells-by-formula-name", "%s.new_cells(formula='def %s(): return 1')" % (s, n), s)
             add("set-ref", "%s.%s = %%(v)d" % (s, n), s)
             add("new-child-space", "%s.new_space(%r)" % (s, n), s)
             add("del-member", "del %s.%s" % (s, n), s)
@@ -581,7 +582,7 @@ def run(res, tier, seed):
         nsample = 6000
     else:
         plan = [(("x", "y"), 1, 2, (False, True)), (("x",), -1, 3, (True,))]
-        nsample = 300
+        nsample = 150
     res.bound = ("initial models: the %d consistent ordered-base DAGs on 3 spaces (up to relabelling), each space "
                  "with a probe cells; all histories of edits from the fixed vocabulary with (names, vocabulary "
                  "level, max edits, reads between edits) in %s, a history being continued only through accepted "
@@ -589,22 +590,26 @@ def run(res, tier, seed):
                  % (len(shapes), plan, nsample))
     res.rule = ("vocabulary (per space and name): new_cells by name / by formula name, reference assignment, child "
                 "space, del, rename cells x<->y, rename child space, add_bases / remove_bases for every ordered pair, "
-                "model-level reference / space / del, rename a top-level space to x (level -1: without the renames "
-                "and the model-level space / del); level 1 adds parameters, new "
+                "model-level reference / space / del, rename a top-level space to x (level -1: without the renames, "
+                "the model-level space / del and new_cells by formula name, on the shapes with <= 2 base links); "
+                "level 1 adds parameters, new "
                 "sub space, child space with a base, copy of a space / cells, defcells, absref to a space, "
                 "auto-named cells.  Every edit is tried whatever the state; NU / NS / the sanity self-checks are "
                 "evaluated on the live objects after the last edit (accepted or refused).  Non-trivial: the last "
                 "edit was accepted.  distinct = (initial shape up to relabelling, flags, history text).")
     res.exhaustive = True
     tasks = []
+    deep = []
     for names, level, depth, readss in plan:
         V = vocabulary(names, level)
         for reads in readss:
             for dag in shapes:
+                if level < 0 and sum(len(b) for b in dag) > 2:
+                    continue            # quick tier: three-edit histories on the shapes with <= 2 base links
                 spec = Spec(dag, reads, names, level)
-                tasks.append(("dfs", spec, None, depth))
+                (tasks if depth <= 2 else deep).append(("dfs", spec, None, depth))
                 for j in range(len(V)):
-                    tasks.append(("dfs", spec, j, depth))
+                    (tasks if depth <= 2 else deep).append(("dfs", spec, j, depth))
     rng = res.rng
     sampled = []
     for _ in range(nsample):
@@ -613,6 +618,7 @@ def run(res, tier, seed):
         sampled.append((spec, rng.randrange(10 ** 9), rng.choice((4, 5, 6))))
     for i in range(0, len(sampled), 20):
         tasks.append(("sample", sampled[i:i + 20]))
+    tasks += deep           # the largest layers last
     run_parallel(res, work, tasks, margin=0.93)
     if res.expired():
         res.exhaustive = False
